@@ -101,6 +101,20 @@ Theorem C13_send_loop_count : forall fws stop cmds,
   = loop_count stop (map (fun co => is_failed (record (fst co) (snd co) fws)) cmds).
 Proof. exact send_loop_count. Qed.
 
+(* Driver.sendCommand as the source has it creates the response with the driver's failure list
+   exactly when the operation's is empty (and sends the input, records the output into that
+   response and returns it) *)
+Theorem C13_send_command_fws_is_source : forall opf drvf : list bytes,
+  sc1_run (nilb opf) = Some (nilb opf)
+  /\ effective_fws opf drvf = if nilb opf then drvf else opf.
+Proof. exact send_command_fws_is_source. Qed.
+
+(* network Driver.SendConfig as the source has it: for a multi response of any size n, the result
+   of every member 0..n-1 is copied, in order, into the slice joined with newlines, and the
+   aggregate failure is passed on unchanged *)
+Theorem C13_send_config_is_source : forall n, cfg_run n = Some (seq 0 n).
+Proof. exact send_config_is_source. Qed.
+
 Print Assumptions C13_failed_iff.
 Print Assumptions C13_failed_first.
 Print Assumptions C13_precedence.
@@ -113,3 +127,5 @@ Print Assumptions C13_record_is_source.
 Print Assumptions C13_append_is_source.
 Print Assumptions C13_send_commands_is_source.
 Print Assumptions C13_send_loop_count.
+Print Assumptions C13_send_command_fws_is_source.
+Print Assumptions C13_send_config_is_source.
